@@ -131,6 +131,10 @@ def one_update(world, prefix, op, counters, digests, violations, known, rng, sam
         # the class of the injected exception rotates over common built-in classes
         exc_cls = C.INJECTED_CLASSES[(k + len(prefix) + (0 if kind == "write" else 3)) % len(C.INJECTED_CLASSES)] if k > 0 or kind == "call" \
             else C.InjectedFault
+        if kind == "call" and (k + len(prefix)) % 2 == 0:
+            # a user function failing with ZeroDivisionError (inside an operand of / // % it must still reach the caller:
+            # only the division node's OWN zero division yields nan)
+            exc_cls = C.InjectedZeroDivisionError
         C.ARM["exc"] = exc_cls
         counters.setdefault("fault_classes", {})
         counters["fault_classes"][exc_cls.__name__] = counters["fault_classes"].get(exc_cls.__name__, 0) + 1
